@@ -173,6 +173,7 @@ class TreeExec:
         self.events: list = []  # for property-specific oracles
         self.hold = self.cfg["policy"] == "hold"
         self.unexpected: list = []  # library refusals of operations the model considers valid
+        self.all_ops: list = []
 
     # -- resolution -----------------------------------------------------------
     def wsof(self, handle):
@@ -227,23 +228,49 @@ class TreeExec:
         except Exception as err:  # pylint: disable=broad-except
             raise Refused(type(err).__name__) from err
 
-    def op_mk_group(self, parent):
+    def _uid_request(self, opt, kind):
+        """Explicit identifier requested for a creation: (kwargs, expectation)."""
+        if not opt or "uid_of" not in opt:
+            return {}, None
+        src = opt["uid_of"]
+        uid = self.uid[src]
+        if src in self.model.nodes and self.model.nodes[src].ws == 1:
+            other = self.model.nodes[src].kind
+            return {"uid": uid}, ("in-use", kind, other)
+        return {"uid": uid}, ("of-removed", kind, None)
+
+    def _create(self, make, expect):
+        """Run a creation; a refusal of an in-use / formerly used uid is an expected outcome."""
+        if expect is None:
+            return self._lib(make)
+        try:
+            ent = make()
+        except Exception as err:  # pylint: disable=broad-except
+            self.events.append(("uid-request-refused", expect, len(self.results)))
+            raise Refused(f"expected:uid-{expect[0]}:" + type(err).__name__) from err
+        if expect[0] == "in-use":
+            self.events.append(("reuse-accepted", expect, len(self.results)))
+        return ent
+
+    def op_mk_group(self, parent, opt=None):
         from geoh5py.groups import ContainerGroup
 
+        kw, expect = self._uid_request(opt, "group")
         nd = self.model.new("group", "ContainerGroup", f"g{self.model.n}", parent)
         par = self.ent(parent)
-        g = self._lib(lambda: ContainerGroup.create(par.workspace, name=nd.name, parent=par))
+        g = self._create(lambda: ContainerGroup.create(par.workspace, name=nd.name, parent=par, **kw), expect)
         self.uid[nd.idx] = g.uid
         self.keep(g)
 
-    def op_mk_obj(self, cls, parent):
+    def op_mk_obj(self, cls, parent, opt=None):
         from geoh5py import objects
 
+        kw, expect = self._uid_request(opt, "object")
         nd = self.model.new("object", cls, f"o{self.model.n}", parent)
         nd.gsrc = (nd.idx, 0)
         par = self.ent(parent)
         klass = getattr(objects, cls)
-        o = self._lib(lambda: klass.create(par.workspace, name=nd.name, parent=par, vertices=vertices(nd.idx, 0)))
+        o = self._create(lambda: klass.create(par.workspace, name=nd.name, parent=par, vertices=vertices(nd.idx, 0), **kw), expect)
         self.uid[nd.idx] = o.uid
         self.keep(o)
 
@@ -255,7 +282,8 @@ class TreeExec:
             return N_VERT - 1
         return 1
 
-    def op_add_data(self, obj, dkind):
+    def op_add_data(self, obj, dkind, opt=None):
+        kw, expect = self._uid_request(opt, "data")
         ond = self.model.nodes[obj]
         nd = self.model.new("data", None, f"d{self.model.n}", obj)
         nd.dkind = dkind
@@ -266,7 +294,8 @@ class TreeExec:
         if dkind == "rv":
             attr["type"] = "referenced"
             attr["value_map"] = {1: "one", 2: "two"}
-        d = self._lib(lambda: o.add_data({nd.name: attr}))
+        attr.update(kw)
+        d = self._create(lambda: o.add_data({nd.name: attr}), expect)
         self.uid[nd.idx] = d.uid
         self.keep(d)
 
@@ -363,6 +392,9 @@ class TreeExec:
         x = self.ent(e)
         tgt_handle = src.parent if target == "same" else target
         par = self.ent(tgt_handle)
+        tws = par.workspace
+        taken = {str(u) for u in tws.list_entities_name}
+        same_ws = tws is x.workspace
         if src.kind == "data":
             new = self._lib(lambda: x.copy(parent=par))
         else:
@@ -370,7 +402,9 @@ class TreeExec:
         if new is None:
             raise Refused("copy-returned-None")
         self.keep(new)
+        self._pairs = []
         self._model_copy(e, tgt_handle, new, copy_children)
+        self.events.append(("copy-uids", same_ws, [(k, a, b, a in taken) for k, a, b in self._pairs], len(self.results)))
 
     def _model_copy(self, e, tgt_handle, new_entity, copy_children):
         src = self.model.nodes[e]
@@ -379,6 +413,14 @@ class TreeExec:
         nd.dkind, nd.vsrc, nd.gsrc, nd.msrc = src.dkind, src.vsrc, src.gsrc, src.msrc
         self.uid[nd.idx] = new_entity.uid
         self.events.append(("copied", e, nd.idx))
+        if hasattr(self, "_pairs"):
+            self._pairs.append((src.kind, str(self.uid[e]), str(new_entity.uid)))
+            if src.kind == "object" and copy_children:
+                src_ent = self.ent(e)
+                for name in src.pgs:
+                    a, b = src_ent.get_property_group(name)[0], new_entity.get_property_group(name)[0]
+                    if a is not None and b is not None:
+                        self._pairs.append(("pg", str(a.uid), str(b.uid)))
         if copy_children and src.kind != "data":
             by_name = {}
             for c in getattr(new_entity, "children", []):
@@ -456,6 +498,7 @@ class TreeExec:
     # -- running a whole history --------------------------------------------------
     def run(self, ops):
         for op in ops:
+            self.all_ops.append(op)
             self.apply(op)
         return self
 
@@ -479,14 +522,21 @@ class TreeExec:
         obs["bytes2"] = b2
         self.held = []
         if "reopen" in want:
-            ro = self.Workspace(io.BytesIO(b1), mode="r")
-            obs["reopen"] = observe.snapshot(ro)
-            ro.close()
+            obs["reopen"], obs["reopen_error"] = self.reopen_snapshot(b1)
             if b2 is not None:
-                ro2 = self.Workspace(io.BytesIO(b2), mode="r")
-                obs["reopen2"] = observe.snapshot(ro2)
-                ro2.close()
+                obs["reopen2"], err2 = self.reopen_snapshot(b2)
+                obs["reopen_error"] = obs["reopen_error"] or err2
         return obs
+
+    def reopen_snapshot(self, b):
+        """Snapshot of a fresh read-only opening; (None, error name) when it cannot be opened."""
+        try:
+            ro = self.Workspace(io.BytesIO(b), mode="r")
+            snap = observe.snapshot(ro)
+            ro.close()
+            return snap, None
+        except Exception as err:  # pylint: disable=broad-except
+            return None, type(err).__name__
 
     # -- model projection ---------------------------------------------------------
     def expected(self, wsn=1) -> dict:
@@ -657,6 +707,13 @@ def enabled(model: Model, alpha: dict) -> list:
                 for o in objects:
                     if o.idx != d.parent and (DATA_KINDS[d.dkind] != "CELL" or o.cls == "Curve"):
                         ops.append(["copy", d.idx, o.idx])
+    if alpha.get("uid_reuse"):
+        cands = [e.idx for e in ents] + sorted(i for i in model.removed if model.ws_of[i] == 1)
+        for c in cands:
+            ops.append(["mk_group", "root", {"uid_of": c}])
+            ops.append(["mk_obj", "Points", "root", {"uid_of": c}])
+            if objects:
+                ops.append(["add_data", objects[0].idx, "fv", {"uid_of": c}])
     if "rm_ws" in kinds:
         ops += [["rm_ws", e.idx] for e in ents]
     if "rm_par" in kinds:
